@@ -41,17 +41,17 @@ def run(ck):
     comps1 = [c for c in comps1 if len(c) <= (2 if quick else 3)]
     if not quick:
         data1 = rng.sample(data1, 70)
-    g_num = km.model_run(ck, "numeric-1d", ck.work, n1, 1, 2, data1, inits1, comps1, [4], [F(-1)], coverage=cov)
+    g_num = km.model_run(ck, "numeric-1d", ck.work, n1, 1, 2, data1, inits1, comps1, [4], [F(-1)], coverage=False)
     stop_data = rng.sample(data1, 12 if quick else 40)
     g_stop = km.model_run(ck, "stop-rule", ck.work, n1, 1, 2, stop_data, inits1, [(n1,)], [0, 1, 2, 4, km.NOCAP], THRS,
                           coverage=cov)
     # 2-D, three clusters
     vals2 = [0, 1, 3]
     n2 = 4 if quick else 5
-    data2 = rng.sample(km.datasets(n2, 2, vals2), 40 if quick else 150)
-    inits2 = rng.sample(km.initsets(3, 2, vals2), 6 if quick else 12)
+    data2 = rng.sample(km.datasets(n2, 2, vals2), 40 if quick else 60)
+    inits2 = rng.sample(km.initsets(3, 2, vals2), 6 if quick else 8)
     g_2d = km.model_run(ck, "numeric-2d-k3", ck.work, n2, 2, 3, data2, inits2, [(n2,), (1, n2 - 1)], [3],
-                        [F(-1), F(1, 100)], coverage=cov)
+                        [F(-1), F(1, 100)], coverage=False)
     # the deviating variant must be refuted (the property is not vacuous on this domain)
     km.model_run(ck, "deviation:KMEANS_CRITERION_SUM_OF_BLOCK_MEANS", ck.work, 4, 1, 2, km.datasets(4, 1, vals)[:20],
                  inits1[:3], [(1, 3)], [2], [F(-1)], dev=["KMEANS_CRITERION_SUM_OF_BLOCK_MEANS"],
